@@ -228,4 +228,64 @@ class GeneCoordinates(Harness):
         return cl
 
 
-HARNESSES = [AreaRows(), GeneCoordinates()]
+
+class PackRows(Harness):
+    """pack() on its own with more areas than the region harness affords (a row keeps track of a single free stretch only)"""
+    pid, name = "C19", "pack_rows"
+    functions = ["antismash.outputs.html.area_packing:pack", "antismash.outputs.html.area_packing:Row.can_fit",
+                 "antismash.outputs.html.area_packing:Row.add", "antismash.common.secmet.features.feature:Feature.__lt__",
+                 "antismash.common.secmet.features.region.structures:Region.get_unique_protoclusters"]
+    bound = ("K = 3 areas (protoclusters, extent = core) in the order Region.get_unique_protoclusters supplies them, each simple or "
+             "origin-spanning, symbolic coordinates and record length")
+    outside = "K > 3; the conversion of the packed rows to drawing coordinates (area_rows)"
+    task_paths = 200
+
+    def variants(self, tier):
+        combos = [["s", "s", "s"], ["o", "s", "s"], ["o", "o", "s"], ["o", "o", "o"]]
+        return [{"shapes": c} for c in combos]
+
+    def vars(self, var):
+        d = {"n": "int"}
+        for i, sh in enumerate(var["shapes"]):
+            d.update(shape_vars("a%d" % i, sh))
+        return d
+
+    def pre(self, var, v):
+        return L.And([shape_pre("a%d" % i, sh, v, v["n"]) for i, sh in enumerate(var["shapes"])])
+
+    def run(self, var, v):
+        from antismash.common.secmet.features import CandidateCluster, Region
+        from antismash.common.secmet.features.candidate_cluster import CandidateClusterKind
+        from antismash.outputs.html.area_packing import pack
+        Protocluster.__hash__ = lambda self: hash(self.product)
+        n = v["n"]
+        circ = "o" in var["shapes"]
+        areas = [Protocluster(build("a%d" % i, sh, v), build("a%d" % i, sh, v), tool="test", product="p%d" % i, cutoff=1,
+                              neighbourhood_range=0, detection_rule="r") for i, sh in enumerate(var["shapes"])]
+        # the order in which a region hands its protoclusters to pack()
+        region = Region([CandidateCluster(CandidateClusterKind.SINGLE, [a], circular_wrap_point=n if circ else None) for a in areas])
+        rows = pack(region.get_unique_protoclusters())
+        return [[areas.index(a) for a in row.contents] for row in rows]
+
+    def post(self, var, v, out):
+        if is_raised(out):
+            return [("no_raise", False)]
+        k = len(var["shapes"])
+        parts = [model_parts("a%d" % i, sh, v) for i, sh in enumerate(var["shapes"])]
+        flat = sorted(i for row in out for i in row)
+        cl = [("every_area_drawn_exactly_once", flat == list(range(k)))]
+        for row in out:
+            for a, b in itertools.combinations(row, 2):
+                cl.append(("same_row_areas_do_not_overlap", L.Not(overlap_parts(parts[a], parts[b]))))
+        return cl
+
+    def klass(self, var, out):
+        if is_raised(out):
+            return "raised:" + out.etype
+        return "rows:%d" % len(out)
+
+    def expected_classes(self, var):
+        return {"rows:3"}
+
+
+HARNESSES = [AreaRows(), GeneCoordinates(), PackRows()]
